@@ -219,7 +219,7 @@ class Scatterer(HoloPyObject):
         voxelation : np.ndarray
             An array with refractive index at every pixel
         """
-        return self.index_at(self._voxel_coords(spacing))
+        return self.index_at(self._voxel_coords(spacing), medium_index)
 
     def voxelate_domains(self, spacing):
         return self.in_domain(self._voxel_coords(spacing))
